@@ -313,6 +313,8 @@ def compare(it, op, a, b, node=None):
 
 
 def contains(it, cont, x, node=None):
+    if hasattr(cont, "vc_contains"):
+        return cont.vc_contains(it, x)
     if isinstance(cont, SymMap):
         return smt.Select(cont.pres, it.term(x))
     if isinstance(cont, SymSet):
